@@ -907,7 +907,11 @@ def i_SHR(i, fmap):
     a = fmap(op1)
     if count._is_cst:
         if count.value == 0:
-            return  # flags unchanged
+            # flags unchanged, but a 32-bit register destination is still
+            # written (zero-extended to 64 bits)
+            op1, a = _r32_zx64(op1, a)
+            fmap[op1] = a
+            return
         if count.value == 1:
             fmap[of] = a.bit(-1)  # MSB of a
         else:
@@ -939,6 +943,10 @@ def i_SAR(i, fmap):
     a = fmap(op1)
     if count._is_cst:
         if count.value == 0:
+            # flags unchanged, but a 32-bit register destination is still
+            # written (zero-extended to 64 bits)
+            op1, a = _r32_zx64(op1, a)
+            fmap[op1] = a
             return
         if count.value == 1:
             fmap[of] = bit0
@@ -972,6 +980,10 @@ def i_SHL(i, fmap):
     x = a << count
     if count._is_cst:
         if count.value == 0:
+            # flags unchanged, but a 32-bit register destination is still
+            # written (zero-extended to 64 bits)
+            op1, a = _r32_zx64(op1, a)
+            fmap[op1] = a
             return
         if count.value == 1:
             # MSB of the result xor the bit shifted out (the new CF)
@@ -1009,6 +1021,10 @@ def i_ROL(i, fmap):
     x = ROL(a, count)
     if count._is_cst:
         if count.value == 0:
+            # flags unchanged, but a 32-bit register destination is still
+            # written (zero-extended to 64 bits)
+            op1, a = _r32_zx64(op1, a)
+            fmap[op1] = a
             return
         fmap[cf] = x.bit(0)
         if count.value == 1:
@@ -1037,6 +1053,10 @@ def i_ROR(i, fmap):
     x = ROR(a, count)
     if count._is_cst:
         if count.value == 0:
+            # flags unchanged, but a 32-bit register destination is still
+            # written (zero-extended to 64 bits)
+            op1, a = _r32_zx64(op1, a)
+            fmap[op1] = a
             return
         fmap[cf] = x.bit(-1)
         if count.value == 1:
@@ -1066,6 +1086,10 @@ def i_RCL(i, fmap):
     x, carry = ROLWithCarry(a, count, fmap(cf))
     if count._is_cst:
         if count.value == 0:
+            # flags unchanged, but a 32-bit register destination is still
+            # written (zero-extended to 64 bits)
+            op1, a = _r32_zx64(op1, a)
+            fmap[op1] = a
             return
         fmap[cf] = carry
         if count.value == 1:
@@ -1096,6 +1120,10 @@ def i_RCR(i, fmap):
     x, carry = RORWithCarry(a, count, fmap(cf))
     if count._is_cst:
         if count.value == 0:
+            # flags unchanged, but a 32-bit register destination is still
+            # written (zero-extended to 64 bits)
+            op1, a = _r32_zx64(op1, a)
+            fmap[op1] = a
             return
         if count.value == 1:
             fmap[of] = a.bit(-1) ^ fmap(cf)
